@@ -108,7 +108,7 @@ Proof. exact group_history_below. Qed.
     wherever the cursor is, whoever owned them before *)
 Theorem c16_read_new :
   forall now s g c count noack, SInv s -> GInv g ->
-  let r := st_read_group now s g c sid_max count noack in
+  let r := st_read_group now s g c None count noack in
   fst r = take_count count (filter (p_gt (g_last g)) (s_entries s)) /\
   GInv (snd r) /\
   sorted (fst r) /\ Forall (fun e => sid_lt (g_last g) (fst e)) (fst r) /\
@@ -125,7 +125,7 @@ Proof. exact read_new_inv. Qed.
     counts are those of the actual pending set *)
 Theorem c16_redelivery_single_owner :
   forall now s g c count, SInv s -> GInv g ->
-  let r := st_read_group now s g c sid_max count false in
+  let r := st_read_group now s g c None count false in
   forall e, In e (fst r) ->
     owner (g_by_id (snd r)) (fst e) = Some c /\
     forall c', In (fst e) (bcg c' (g_by_consumer (snd r))) <-> c' = c.
@@ -136,10 +136,11 @@ Proof. exact read_new_single_owner. Qed.
     order, [sel]; the ones deleted from the stream are left out - and changes nothing but
     delivery counters: cursor, per-consumer index, total and bounds are untouched, the
     pending IDs and their owners are the same, exactly the selected entries get delivery
-    count + 1 and the delivery time [now]; the reader is registered as a consumer *)
+    count + 1 and the delivery time [now]; the reader is registered as a consumer.  Every explicit
+    ID reads the history, the greatest one included (7d40622: ">" is [None], no ID doubles as a marker) *)
 Theorem c16_read_own :
-  forall now s g c after count noack, sid_eqb after sid_max = false -> GInv g ->
-  let r := st_read_group now s g c after count noack in
+  forall now s g c after count noack, GInv g ->
+  let r := st_read_group now s g c (Some after) count noack in
   let sel := map p_id (take_count count (own_pending_after g c after)) in
   fst r = filter_map (fun id => find_entry id (s_entries s)) sel /\
   GInv (snd r) /\
@@ -153,8 +154,8 @@ Theorem c16_read_own :
               = option_map (fun q => if sid_mem id sel then bump now q else q) (pel_find id (g_by_id g))).
 Proof. exact read_own_spec. Qed.
 Theorem c16_read_own_entries :
-  forall now s g c after count noack, sid_eqb after sid_max = false -> SInv s -> GInv g ->
-  let r := st_read_group now s g c after count noack in
+  forall now s g c after count noack, SInv s -> GInv g ->
+  let r := st_read_group now s g c (Some after) count noack in
   let sel := map p_id (take_count count (own_pending_after g c after)) in
   sorted (fst r) /\ forall e, In e (fst r) <-> In e (s_entries s) /\ In (fst e) sel.
 Proof. exact read_own_entries. Qed.
@@ -287,40 +288,54 @@ Example c16_setid_redelivery_witness :
                      bulk "last-delivered-id"; bulk "5-0"]]].
 Proof. vm_compute. reflexivity. Qed.
 
-(** ---- open findings in the neighbourhood (the model follows the code) ---- *)
-(** class xreadgroup-missing-key: a key that does not exist is skipped silently (Redis: NOGROUP) *)
-Example c16_missing_key_refuted :
-  fst (run_cmds 0 empty_db [cmd ["XREADGROUP"; "GROUP"; "g"; "c1"; "STREAMS"; "nokey"; ">"];
-                            cmd ["XREADGROUP"; "GROUP"; "g"; "c1"; "STREAMS"; "nokey"; "0"]])
-  = [FArray []; FArray []].
+(** extended XPENDING (after c8418b5): with and without a consumer name the rows are the pending
+    entries with start <= ID <= end (owned by that consumer), in ID order, cut to COUNT *)
+Theorem c16_xpending_extended :
+  forall l st en c, psorted l ->
+  filter (fun p => beq (p_consumer p) c) (pel_range l st en)
+  = filter (fun p => sid_leb st (p_id p) && sid_leb (p_id p) en && beq (p_consumer p) c) l /\
+  psorted (filter (fun p => beq (p_consumer p) c) (pel_range l st en)).
+Proof.
+  intros l st en c Hs. split.
+  - unfold pel_range. rewrite filter_filter'. apply filter_ext_in'. intros p _. apply andb_comm.
+  - apply psorted_filter. unfold pel_range. apply psorted_filter. exact Hs.
+Qed.
+
+(** ---- formerly open findings of the neighbourhood, repaired in /repo ---- *)
+(** class xreadgroup-missing-key (fixed by d9160ac): a key that does not exist answers NOGROUP, and
+    nothing is delivered from the keys before it *)
+Example c16_missing_key_witness :
+  fst (run_cmds 0 empty_db [cmd ["XADD"; "s"; "1-0"; "a"; "1"]; cmd ["XGROUP"; "CREATE"; "s"; "g"; "0"];
+                            cmd ["XREADGROUP"; "GROUP"; "g"; "c1"; "STREAMS"; "nokey"; ">"];
+                            cmd ["XREADGROUP"; "GROUP"; "g"; "c1"; "STREAMS"; "s"; "nokey"; ">"; "0"];
+                            cmd ["XPENDING"; "s"; "g"]])
+  = [bulk "1-0"; r_ok; r_nogroup; r_nogroup; FArray [FInt 0; FNullBulk; FNullBulk; FArray []]].
 Proof. vm_compute. reflexivity. Qed.
-(** class xpending-consumer-range: with a consumer name the extended XPENDING ignores the range *)
-Example c16_xpending_consumer_range_refuted :
+(** class xpending-consumer-range (fixed by c8418b5) *)
+Example c16_xpending_consumer_range_witness :
   fst (run_cmds 0 empty_db [cmd ["XADD"; "s"; "1-0"; "a"; "1"]; cmd ["XADD"; "s"; "2-0"; "a"; "2"];
                             cmd ["XGROUP"; "CREATE"; "s"; "g"; "0"];
                             cmd ["XREADGROUP"; "GROUP"; "g"; "c1"; "STREAMS"; "s"; ">"];
                             cmd ["XPENDING"; "s"; "g"; "2-0"; "2-0"; "10"; "c1"];
-                            cmd ["XPENDING"; "s"; "g"; "2-0"; "2-0"; "10"]])
+                            cmd ["XPENDING"; "s"; "g"; "-"; "+"; "10"; "c2"]])
   = [bulk "1-0"; bulk "2-0"; r_ok;
      FArray [FArray [bulk "s"; FArray [entry1 "1-0" "a" "1"; entry1 "2-0" "a" "2"]]];
-     FArray [FArray [bulk "1-0"; bulk "c1"; FInt 0; FInt 1]; FArray [bulk "2-0"; bulk "c1"; FInt 0; FInt 1]];
-     FArray [FArray [bulk "2-0"; bulk "c1"; FInt 0; FInt 1]]].
+     FArray [FArray [bulk "2-0"; bulk "c1"; FInt 0; FInt 1]]; FArray []].
 Proof. vm_compute. reflexivity. Qed.
-(** class xreadgroup-max-id-marker: the explicit ID u64::MAX-u64::MAX is the handler's marker
-    for ">" ([c16_read_own] carries the side condition [sid_eqb after sid_max = false]) *)
-Example c16_max_id_marker_refuted :
+(** class xreadgroup-max-id-marker (fixed by 7d40622): the greatest ID is an ordinary explicit ID *)
+Example c16_max_id_witness :
   fst (run_cmds 0 empty_db [cmd ["XADD"; "s"; "1-0"; "a"; "1"]; cmd ["XGROUP"; "CREATE"; "s"; "g"; "0"];
                             cmd ["XREADGROUP"; "GROUP"; "g"; "c1"; "STREAMS"; "s"; "18446744073709551615-18446744073709551615"];
                             cmd ["XPENDING"; "s"; "g"]])
-  = [bulk "1-0"; r_ok; FArray [FArray [bulk "s"; FArray [entry1 "1-0" "a" "1"]]];
-     FArray [FInt 1; bulk "1-0"; bulk "1-0"; FArray [FArray [bulk "c1"; FInt 1]]]].
+  = [bulk "1-0"; r_ok; FArray []; FArray [FInt 0; FNullBulk; FNullBulk; FArray []]].
 Proof. vm_compute. reflexivity. Qed.
-(** class xreadgroup-count-zero: COUNT 0 returns nothing (Redis: no limit) *)
-Example c16_count_zero_refuted :
+(** class xreadgroup-count-zero (fixed by cc6cf30): COUNT 0 = no limit, on both paths *)
+Example c16_count_zero_witness :
   fst (run_cmds 0 empty_db [cmd ["XADD"; "s"; "1-0"; "a"; "1"]; cmd ["XGROUP"; "CREATE"; "s"; "g"; "0"];
                             cmd ["XREADGROUP"; "GROUP"; "g"; "c1"; "COUNT"; "0"; "STREAMS"; "s"; ">"];
-                            cmd ["XREADGROUP"; "GROUP"; "g"; "c1"; "STREAMS"; "s"; ">"]])
-  = [bulk "1-0"; r_ok; FArray []; FArray [FArray [bulk "s"; FArray [entry1 "1-0" "a" "1"]]]].
+                            cmd ["XREADGROUP"; "GROUP"; "g"; "c1"; "COUNT"; "0"; "STREAMS"; "s"; "0"]])
+  = [bulk "1-0"; r_ok; FArray [FArray [bulk "s"; FArray [entry1 "1-0" "a" "1"]]];
+     FArray [FArray [bulk "s"; FArray [entry1 "1-0" "a" "1"]]]].
 Proof. vm_compute. reflexivity. Qed.
 
 (** formerly class xpending-inverted-range (fixed by 8b811fd): an inverted range selects
